@@ -104,6 +104,12 @@ def scenarios(rng: random.Random, n: int, depth: int) -> list[str]:
                      f"UN:{fl}:4:{n()}:{e2}:sid=s;9,oh=peer1.x,or={nodegen.REALM}"]
             for m in stray:
                 out.append(pre + f" | rx 0 {nodegen.dwr(h1, e1)} | rx 0 {nodegen.unk(h2, e2, app=77)} | rx 0 {m} | rx 0 {nodegen.dwr(n(), n())}")
+    # typed requests whose header carries another application id than the command's usual one: the answer mirrors the header
+    for cfgn in ("basic", "two"):
+        pre = nodegen.CONFIGS[cfgn] + " | start | acc | rx 0 " + nodegen.cer("peer1.x", "4", n(), n())
+        for appid in (999, 16777238, 0, 4294967295, 3):
+            out.append(pre + f" | rx 0 {nodegen.ccr(n(), n(), app=appid)} | rx 0 {nodegen.ccr(n(), n(), app=appid, realm='foreign.realm')} | "
+                             f"rx 0 {nodegen.ccr(n(), n(), app=appid, drop=('sid', 'rt'))} | rx 0 {nodegen.dwr(n(), n())}")
     # a request that was answered is repeated with the T flag under a new hop-by-hop id (same connection / the peer's
     # other connection): whatever the node answers must answer *that* request
     for cfgn in ("basic", "two", "rq"):
